@@ -164,6 +164,16 @@ void use_flatset_nonstd_min(F &s) {
 #endif
 
 #if __cplusplus >= 201703L
+// it.operator->() for class-type iterators, the pointer itself for raw pointers
+template <class It>
+auto arrow_of(It it, int) -> decltype(it.operator->()) {
+  return it.operator->();
+}
+template <class It>
+It arrow_of(It it, long) {
+  return it;
+}
+
 template <class S>
 void use_smallset(S &s, S &o, const S &c) {
   using E = typename S::value_type;
@@ -197,6 +207,8 @@ void use_smallset(S &s, S &o, const S &c) {
   sink(c.crend());
   sink(b == en);
   sink(b != en);
+  sink(arrow_of(b, 0));    // member access through the iterators (class-type elements use it->member)
+  sink(arrow_of(rb, 0));
   ++b;
   --b;
   b++;
